@@ -13,11 +13,21 @@ func (ex *Exec) namedType(key string) types.Type {
 	if t, ok := ex.typeCache[key]; ok {
 		return t
 	}
-	i := strings.Index(key, ".")
+	i := strings.LastIndex(key, ".")
 	if i < 0 {
 		return nil
 	}
 	short, name := key[:i], key[i+1:]
+	for _, sp := range ex.prog.Prog.AllPackages() {
+		if sp.Pkg.Path() == short {
+			if o := sp.Pkg.Scope().Lookup(name); o != nil {
+				if _, ok := o.(*types.TypeName); ok {
+					ex.typeCache[key] = o.Type()
+					return o.Type()
+				}
+			}
+		}
+	}
 	for path, s := range scopePkgs {
 		if s == short {
 			if sp := ex.prog.SSA[path]; sp != nil {
